@@ -92,6 +92,11 @@ check("C11", "fault_enumeration",
   "Only process death is modelled (no loss of un-fsynced data after later data survived); LevelDB-internal torn records are trusted to LevelDB; intra-table torn writes are left to the blockfile's own repair.",
   "runtime monitoring + fault injection: exhaustive composition of per-component crash images and SIGKILL at hook points, each recovered by the real ledger in a child process and compared with a never-crashed reference", "DESIGN.md §5 C11")
 
+check("C20", "fault_enumeration",
+  "Every replica is a separate OS process running the real etcd-raft (3 or 4 replicas) or solo order node behind a parent-process network that loses, duplicates, delays and reorders messages and isolates nodes; replicas are killed with SIGKILL at random moments, at the hook points around mint / recording the applied index and before/after the executor's durable write, and restarted from their data directories; clients re-send committed and uncommitted transactions. A stand-in executor logs every delivered block durably before reporting state. Offline oracle on the logs: heights delivered to each replica are exactly last+1 across all incarnations, every height has identical transactions and timestamp on all replicas, no transaction is in two heights, nothing unsubmitted is delivered, no committed batch above lastExec+1 is ever ignored. SyncCFTBlocks is enumerated completely for 1<=begin<=end<=40 x fetch {1,2,3,5,7}. Five genuine defects were found and repaired (fork after crash behind a snapshot, stuck replica after a crash during snapshot catch-up, three causes of a transaction delivered in two blocks).",
+  "The executor is a stand-in (the executor/ledger pair is C11's subject); messages are never corrupted; schedules are sampled (timing only selects them, no verdict depends on wall-clock); smart-BFT ordering is not linked in this tree's default build and is not covered.",
+  "runtime monitoring + fault injection: multi-process cluster under a hostile in-memory network and SIGKILL at hook points, offline checker over durable per-replica delivery logs; exhaustive enumeration of sync ranges", "DESIGN.md §5 C20")
+
 ALL = [f"C{i:02d}" for i in range(1, 21)]
 REASON_PENDING = "check not built yet in this round; see DESIGN.md §5 for the planned monitor (no claim is made until the check runs clean on the unchanged tree)"
 
